@@ -173,6 +173,7 @@ Next == \/ \E c \in Ctx, f \in 0..4, n \in SegLens : SubmitAct(c, f, n)
         \/ FlushAct
 Spec == IInit /\ [][Next]_ivars
 \* bound the exploration: totals stay small
+CtxSym == Permutations(Ctx)
 Bounded == \A c \in Ctx : S.ctx[c].tot <= MaxTotal /\ Len(S.ctx[c].strm) <= 2
 
 ----------------------------------------------------------------------------
